@@ -137,3 +137,35 @@ func FrameworkSockets() []int {
 	}
 	return out
 }
+
+// PConnectTCP connects a non-blocking TCP socket to ip:port on loopback (or a scoped IPv6
+// address) and returns the descriptor and its local address.
+//
+//go:norace
+func PConnectTCP(sa real.Sockaddr, v6 bool) (int, real.Sockaddr, error) {
+	sched.Point("peer.socket", 0)
+	dom := real.AF_INET
+	if v6 {
+		dom = real.AF_INET6
+	}
+	fd, err := real.Socket(dom, real.SOCK_STREAM|real.SOCK_NONBLOCK|real.SOCK_CLOEXEC, 0)
+	if err != nil {
+		return -1, nil, err
+	}
+	L.created(fd, "user", "peer-tcp")
+	sched.Point("peer.connect", int64(fd))
+	err = real.Connect(fd, sa)
+	L.log("peer.connect", fd, 0, 0, err, "user", "")
+	if err != nil && err != real.EINPROGRESS {
+		_ = real.Close(fd)
+		L.closed(fd, "user", nil)
+		return -1, nil, err
+	}
+	if err == real.EINPROGRESS {
+		// loopback handshakes complete inside connect(2)'s softirq; wait (bounded, real time) for it
+		pfd := []real.PollFd{{Fd: int32(fd), Events: real.POLLOUT}}
+		_, _ = real.Poll(pfd, 1000)
+	}
+	local, _ := real.Getsockname(fd)
+	return fd, local, nil
+}
